@@ -48,7 +48,7 @@ type Prop struct {
 
 var props = map[string]*Prop{}
 
-func Register(p *Prop) { props[p.ID] = p }
+func Register(p *Prop)       { props[p.ID] = p }
 func Lookup(id string) *Prop { return props[id] }
 func IDs() []string {
 	var out []string
